@@ -13,6 +13,7 @@ _UNIT_MODULES = [
     "units.u_literal.unit",
     "units.u_format.unit",
     "units.u_inspect.unit",
+    "units.u_report.unit",
 ]
 
 UNITS = {}
@@ -22,12 +23,12 @@ for m in _UNIT_MODULES:
         UNITS[u.name] = u
 
 NUMBIGINT_TB = ["ASSUMED contracts of the external crate num-bigint 0.4 (units/_shared/num_bigint.rs): sign, bits (< 2^63), bit, set_bit, checked_add/sub/mul/div, %, <<, >>, unary -, & | ^ (bitwise axioms), From<i32/usize/u8>, TryFrom<&BigInt> for usize/u32, comparisons"]
-REPORT_TB = ["ASSUMED contracts of diagn::Report methods (units/contracts_report.py): error*/warning*/note*/message add one top-level message; push_parent*/pop_parent change only the parent stack"]
+REPORT_TB = ["diagn::Report contracts (units/contracts_report.py: error*/warning*/note*/message add one top-level message and count as an error exactly when the top-level kind is Error; push_parent*/pop_parent change only the parent stack; stop_at_errors is Ok iff no top-level Error) are PROVED over the real fields in unit U-report and used as stubs elsewhere; only Report::wrap_in_parents (iterator adapters) stays assumed: the wrapped message has the kind of the outermost parent, or its own kind without parents"]
 
 RESOLVER_TB = ["ASSUMED contracts of unverified customasm code used by U-resolver/U-iterate: asm::resolver::eval / eval_certain ('Err is loud, Ok is clean'), resolve_constant / resolve_instruction / resolve_data_element (the per-item pass contract), ResolveIterator::new/next (flags copied; the yielded node refers to defined items), Value::expect_error_or_bigint / expect_bool, DefList::get_mut (frame), derived PartialEq of expr::Value",
                "ghost event `ItemDefs::confirmed()` is produced only by resolve_once's stub clause [confirms] (a name for 'a no-guess pass answered Resolved'); termination of resolve_once's loop is not proved"]
 
-ALL_UNITS = ["U-overlap", "U-bigint", "U-constrain", "U-resolver", "U-iterate", "U-bitvec", "U-output", "U-charcount", "U-symbols", "U-rulemap", "U-literal", "U-format", "U-inspect"]
+ALL_UNITS = ["U-overlap", "U-bigint", "U-constrain", "U-resolver", "U-iterate", "U-bitvec", "U-output", "U-charcount", "U-symbols", "U-rulemap", "U-literal", "U-format", "U-inspect", "U-report"]
 
 PROPERTIES = {
     "C01": {
